@@ -72,6 +72,9 @@ type Options struct {
 	Resume bool
 	PsDir  string
 	Pid    int
+	// Retries is mrp's --autoretry: how many times a failure that
+	// Pipestance.IsErrorTransient accepts is answered by a restart.
+	Retries int
 	// SignalAt > 0: a handled termination signal arrives just before the
 	// SignalAt-th file-system effect.  As in util.SetupSignalHandlers the
 	// process keeps running while a critical section is open; once none is,
@@ -146,6 +149,8 @@ type Result struct {
 	// sections after the signal arrived.
 	SignalEffects []string
 	SignalDelay   int
+	// Retried counts the automatic restarts after transient failures.
+	Retried int
 	// CompiledOK: the invocation was refused although the compiler accepts
 	// the program.
 	CompiledOK bool
@@ -533,6 +538,7 @@ func Run(p *progen.Program, sched Schedule, opts Options) (res *Result) {
 	}
 
 	idle := 0
+	retriesLeft := opts.Retries
 	for iter := 0; iter < opts.MaxIter; iter++ {
 		register()
 		// advance pending jobs in submission order
@@ -596,6 +602,18 @@ func Run(p *progen.Program, sched Schedule, opts Options) (res *Result) {
 			}
 			res.VdrReport = h.CleanupCompleted()
 			break
+		}
+		if state == core.Failed && retriesLeft > 0 {
+			retriesLeft--
+			if retried, err := h.RetryRestart(); retried {
+				res.Retried++
+				if err != nil {
+					res.Err = "retry: " + err.Error()
+					break
+				}
+				idle = 0
+				continue
+			}
 		}
 		if state == core.Failed {
 			res.FatalFq, res.FatalLog, _, _ = h.FatalError()
